@@ -19,7 +19,9 @@ def insertVar (k : Nat) (v : Val) : List (Nat × Val) → List (Nat × Val)
 def varIx? (w : String) : Option Nat :=
   if w.startsWith "v" then (w.drop 1).toNat? else none
 
-def strOfHex? (w : String) : Option String := (hexBytes? w).map (fun l => String.ofList (l.map Char.ofNat))
+/-- the message bytes as a string (UTF-8; the generator emits valid UTF-8 only) -/
+def strOfHex? (w : String) : Option String :=
+  (hexBytes? w).bind (fun l => String.fromUTF8? (ByteArray.mk (l.map (fun b => b.toUInt8)).toArray))
 def hexOfStr (s : String) : String := bytesHex (s.toUTF8.toList.map (·.toNat))
 
 def nodeDesc (n : ENode) : String :=
@@ -96,6 +98,10 @@ def exec (s : St) (k : Nat) (op : String) (args : List String) : St × String :=
     match varIx? a with
     | some a => assign s k s.heap (s.get a)
     | none => (s, "bad-op")
+  | "elem", [a, i] =>
+    match varIx? a, i.toNat? with
+    | some a, some i => let r := elem s.heap (s.get a) i; assign s k r.1 r.2
+    | _, _ => (s, "bad-op")
   | "eon", [a] =>
     match varIx? a with
     | some a => assign s k s.heap (errorOrNil s.heap (s.get a))
